@@ -380,8 +380,13 @@ static void flushBatch() {
     Verdict vb = verdictOf(cr);
     const Pending& pj = g_pending[j];
     // the case that ended the batch child is judged alone, in a child of its own
-    Verdict va = judge(pj.c, nullptr);
-    R.count("confirmations");
+    // (request-object cases keep no state between cases: once a signature has been confirmed alone 100 times the
+    // verdict of the batch child is taken as it is)
+    bool light = pj.c.kind == "rq" || pj.c.kind == "rqh";
+    auto known = R.violations.find("C20/" + vb.rule + "/" + pj.site + "/" + pj.cls);
+    Verdict va;
+    if (light && known != R.violations.end() && known->second.count >= 100) { va = vb; va.detail = cr.detail; R.count("unconfirmed_light"); }
+    else { va = judge(pj.c, nullptr); R.count("confirmations"); }
     if (!va.rule.empty()) {
       R.violation("C20/" + va.rule + "/" + pj.site + "/" + pj.cls, "input <" + esc(pj.c.text) + "> " + esc(va.detail.substr(0, 400)), caseString(pj.c));
     } else {
